@@ -183,3 +183,24 @@ func TestKnownMappedPipelinePassThrough(t *testing.T) {
 		return p
 	})
 }
+
+func TestKnownTwinMapCall(t *testing.T) {
+	knownPresent(t, "C01/fork-of-twin-map-call-not-matched", func(a int) *mrogen.Program {
+		p := &mrogen.Program{U: &mrogen.Universe{Structs: []*mrogen.Struct{{Name: "S0", Fields: []mrogen.Field{{Name: "f", T: tInt}}}}}}
+		tIntArr2 := ty{Base: "int", Arr: 2}
+		p.Stages = []*mrogen.Stage{st("ST2", []mrogen.Param{pm("p", tIntArr)}, []mrogen.Param{pm("val", tInt)})}
+		inner := &mrogen.Pipeline{Name: "PL0", Ins: []mrogen.Param{{Name: "f", T: tIntArr2, SplitSrc: true}}, Outs: []mrogen.Param{pm("out1", ty{Base: "ST2", Arr: 1})},
+			Calls: []*mrogen.Call{{Id: "ST2", Callee: "ST2", Mapped: true, Bindings: []mrogen.Binding{{Param: "p", E: mrogen.Split{E: self("f")}}}}},
+			Ret:   []mrogen.Binding{{Param: "out1", E: mrogen.Ref{Call: "ST2"}}}}
+		top := &mrogen.Pipeline{Name: "TOP", Ins: []mrogen.Param{{Name: "f", T: tIntArr2, SplitSrc: true}}, Outs: []mrogen.Param{pm("o", ty{Base: "ST2", Arr: 1})},
+			Calls: []*mrogen.Call{
+				{Id: "PL0_D", Callee: "PL0", Bindings: []mrogen.Binding{{Param: "f", E: self("f")}}},
+				{Id: "PL0_F", Callee: "PL0", Bindings: []mrogen.Binding{{Param: "f", E: mrogen.ArrayLit{Elems: []mrogen.Expr{
+					lit([]any{num(a), num(a + 1)}, tIntArr), out("PL0_D", "out1", "val")}}}}},
+			},
+			Ret: []mrogen.Binding{{Param: "o", E: out("PL0_F", "out1")}}}
+		p.Pipelines = []*mrogen.Pipeline{inner, top}
+		p.Top = &mrogen.Call{Id: "TOP", Callee: "TOP", Bindings: []mrogen.Binding{{Param: "f", E: lit([]any{[]any{num(5)}}, tIntArr2)}}}
+		return p
+	})
+}
